@@ -164,3 +164,16 @@ claim("C06",
       "decision-table extraction by path-sensitive abstract interpretation; evaluation of the extracted guards on "
       "representatives against Python slice semantics; sibling comparison; stateless-handle classification",
       "DESIGN.md#c06")
+
+claim("C10",
+      "Static decision: on every abstract path of the values setter and extend_values no storage write precedes a type "
+      "refusal (TypeError/ValueError); every accepting path of the value type check compares with the property's "
+      "stored type and, for lists, checks every element; the decision table of DataType.get_dtype is evaluated on "
+      "representatives of the type lattice (bool/np.bool_ -> Bool before Integral -> Int64 before Real -> Double, "
+      "str -> String, everything else refused); extend_values enlarges to old+new and writes into [old : old+new] "
+      "after the resize, the values setter resizes to the shape of the new list before writing it, delete_values "
+      "resizes to 0; the Section dictionary protocol (len, del, in, items, [], []=) delegates to the property and "
+      "subsection containers as stated; Section/Property keep no per-handle tables. NOT decided: the values and types "
+      "read back from HDF5 (NumPy/h5py conversions).",
+      "event order / guard presence on all abstract paths; decision-table extraction evaluated on the type lattice; "
+      "event arguments; stateless-handle classification", "DESIGN.md#c10")
